@@ -176,11 +176,19 @@ def impl(case):
             other = P(b)  # a pool is accumulated as its histogram
         else:
             other = b
-        return _fmt(h.accumulate(other), table)
+        before, alias = (list(h.items()), h.total), type(h)(h)
+        out = _fmt(h.accumulate(other), table)
+        if (list(h.items()), h.total) != before or (list(alias.items()), alias.total) != before:
+            out += " operand-changed"
+        return out
     if k == "zfill":
         return _fmt(h.zero_fill(_iterable([C.dec_out(o) for o in case["outs"]], case.get("itype", "list"))), table)
     if k == "remove":
-        return _fmt(h.remove(C.dec_out(case["o"])), table)
+        before, alias = (list(h.items()), h.total), type(h)(h)
+        out = _fmt(h.remove(C.dec_out(case["o"])), table)
+        if (list(h.items()), h.total) != before or (list(alias.items()), alias.total) != before:
+            out += " operand-changed"  # "remove deletes exactly the named outcome" of the RESULT; h and H(h) stay as they were
+        return out
     raise KeyError(k)
 
 
@@ -329,7 +337,9 @@ def generate(rnd, tier, scale):
         elif r < 0.62:
             yield dict(k="draw_noarg", h=h)
         elif r < 0.75:
-            yield dict(k="acc", h=h, b=rnd.choice(cat) if rnd.random() < 0.3 else gen.rand_h(rnd, 4, kind, allow_zero_total=True), bform=rnd.choice(["h", "h", "dict", "pairs", "iterpairs", "counter", "p", "p"]))
+            twin = rnd.random()
+            btwin = h if twin < 0.1 else gen.scale_h(h, rnd.choice([2, 3])) if twin < 0.2 else (h + [[rnd.choice(["i:41", "i:-17"]), 0]]) if twin < 0.3 else None
+            yield dict(k="acc", h=h, b=btwin if btwin is not None else rnd.choice(cat) if rnd.random() < 0.3 else gen.rand_h(rnd, 4, kind, allow_zero_total=True), bform=rnd.choice(["h", "h", "dict", "pairs", "iterpairs", "counter", "p", "p"]))
         elif r < 0.87:
             yield dict(k="zfill", h=h, outs=[rnd.choice(outs + ["i:0", "i:7", "i:-3", "f:2.0"]) for _ in range(rnd.randint(0, 4))], itype=rnd.choice(["list", "list", "iter", "gen", "deque"]))
         else:
